@@ -1,9 +1,9 @@
 SPECIFICATION Spec
 CONSTANTS
-    Configs <- MCQuickAll
-    MaxAge = 3
+    Configs <- MCThoroughAll
+    MaxAge = 5
     MaxDt = 2
-    MaxBDt = 1
+    MaxBDt = 2
     LeaveOKStartsDuration = TRUE
     MaxBatch = 2
 INVARIANTS
